@@ -12,6 +12,7 @@ import (
 	"encoding/json"
 	"fmt"
 	"os"
+	"runtime"
 	"strconv"
 )
 
@@ -180,6 +181,26 @@ func Ite[T any](c bool, a, b T) T {
 		return a
 	}
 	return b
+}
+
+var (
+	allocBase  uint64
+	allocLimit int
+)
+
+// AllocLimit: from here on, allocations whose size comes from the data must
+// stay within n elements (engine: checked at every symbolic-size allocation;
+// native: measured with runtime.MemStats by AllocCheck).
+func AllocLimit(n int) {
+	var m runtime.MemStats
+	runtime.ReadMemStats(&m)
+	allocBase, allocLimit = m.TotalAlloc, n
+}
+
+func AllocCheck(id string) {
+	var m runtime.MemStats
+	runtime.ReadMemStats(&m)
+	Assert(m.TotalAlloc-allocBase <= uint64(allocLimit)*64+1<<20, id)
 }
 
 func Unwind(n int)          {}
